@@ -11,10 +11,10 @@ from ..defs_common import FAM, regen_or_report
 from ..defs_emit_common import (COQ_HEADER, DIFF_NAMES, F, build_corpus, closure_case, closure_files, closure_model_ok, coq_case,
                                 construct_classes, diagnose, names_of_model, observation, read_m, run_emit, source_classes)
 
-THEOREMS = ["C15_total_partial", "C15_total_refuted", "C15_scoped_py_partial", "C15_scoped_c_partial",
+THEOREMS = ["C15_total", "C15_total_closure", "C15_total_ex", "C15_scoped_py_partial", "C15_scoped_c_partial",
             "C15_scoped_matlab_partial", "C15_scoped_js_partial", "C15_py_registers_every_message",
-            "C15_scoped_refuted_alias_of_struct", "C15_scoped_refuted_struct_of_msg", "C15_scoped_refuted_js_alias_field",
-            "C15_scoped_refuted_matlab_header", "C15_js_fresh_partial", "C15_js_calls_disjoint", "C15_js_fresh_refuted",
+            "C15_scoped_refuted_alias_of_struct", "C15_scoped_refuted_struct_of_msg", "C15_js_alias_field_ok",
+            "C15_scoped_refuted_matlab_header", "C15_js_fresh", "C15_js_calls_disjoint", "C15_js_fresh_ex",
             "C15_ex_loads_everywhere"]
 OPS = ["load_py", "load_c", "load_js"]
 
@@ -42,7 +42,7 @@ def extra_closures(natives: List[str]) -> List[dict]:
     out.append(dict(tag="signed-char-field", cl=dict(files=[dict(path="root.yaml", imports=[], items=[
         ("struct", "S1", F(("a", "signed char", None)))])], auto_pad=True, import_coredefs=False), coq=True))
     out.append(dict(tag="signed-char-alias-only", cl=dict(files=[dict(path="root.yaml", imports=[], items=[
-        ("alias", "SC", "signed char"), ("struct", "S1", F(("a", "int8", None)))])], auto_pad=True, import_coredefs=False), coq=False))
+        ("alias", "SC", "signed char"), ("struct", "S1", F(("a", "int8", None), ("b", "SC", ("lit", 2))))])], auto_pad=True, import_coredefs=False), coq=True))
     # emission order: message classes must come out in definition order, not by id
     out.append(dict(tag="msg-order", cl=dict(files=[dict(path="root.yaml", imports=[1], items=[
         ("msg", "MB", 40, F(("a", "MZ", None), ("b", "MA", ("lit", 1)))), ("msg", "MC", 10, F(("a", "MB", None)))]),
@@ -183,7 +183,7 @@ def run(chk: Check):
     chk.prove(FAM, "Props.C15", THEOREMS)
     from ..translate import tables as T
     allnat = [k for k, _, _, _ in T.parser_supported_types()]
-    natives = [n for n in allnat if n != "signed char"]
+    natives = list(allnat)
     corpus = build_corpus(rng, chk.tier, natives) + extra_closures(natives)
     results = run_emit([closure_case(c["cl"], OPS) for c in corpus])
 
